@@ -7,6 +7,7 @@ import (
 	"errors"
 	"io"
 	"net"
+	"net/url"
 	"time"
 
 	"github.com/google/martian/v3/zzverif/vf"
@@ -234,5 +235,102 @@ func VerifC04Tunnel() {
 	vf.Quiesce()
 	vf.Assert(returned, "tunnel-handler-returns-when-both-ends-are-done")
 	vf.Assert(client.closed && target.closed, "both-connections-released")
+	vf.Reach("done")
+}
+
+// VerifC04Downstream: the same tunnel established through a downstream proxy:
+// the proxy under test dials the downstream proxy, forwards the CONNECT and
+// reads its answer; what follows that answer on the downstream connection
+// (possibly in the same segment) is tunnel payload from the target.
+func VerifC04Downstream() {
+	client, down := newTCPConn("client"), newTCPConn("downstream")
+	p := NewProxy()
+	p.SetDownstreamProxy(&url.URL{Scheme: "http", Host: "downstream.example:3128"})
+	p.SetDial(func(network, addr string) (net.Conn, error) { return down, nil })
+	returned := false
+	go func() {
+		serveConn(p, client)
+		returned = true
+	}()
+	head := []byte("CONNECT example.com:443 HTTP/1.1\r\nHost: example.com:443\r\n\r\n")
+	early := vf.Bytes("early-data", vf.Choice("early-len", 2))
+	var sentC, sentT []byte
+	client.in.send(append(append([]byte(nil), head...), early...))
+	sentC = append(sentC, early...)
+	vf.Quiesce()
+	// the downstream proxy has received the CONNECT and answers; the target's first bytes may
+	// share the segment with that answer
+	fwd := down.out.Bytes()
+	fidx := bytes.Index(fwd, []byte("\r\n\r\n"))
+	vf.Assert(fidx > 0 && bytes.HasPrefix(fwd, []byte("CONNECT example.com:443 ")), "connect-forwarded-to-the-downstream-proxy")
+	if fidx <= 0 {
+		return
+	}
+	fwdLen := fidx + 4
+	toTarget := func() []byte { return down.out.Bytes()[fwdLen:] }
+	answers := []string{"HTTP/1.1 200 OK\r\nContent-Length: 0\r\n\r\n", "HTTP/1.1 200 Connection established\r\n\r\n", "SSH-2.0-OpenSSH_8.9\r\n"}
+	ai := vf.Choice("downstream-answer", len(answers))
+	answer := answers[ai]
+	if ai == 2 {
+		// the downstream proxy does not answer in HTTP: no tunnel, a 502 with Warning for the
+		// client, and the connection that was dialled is released
+		down.in.send([]byte(answer))
+		vf.Quiesce()
+		got := clientView(client.out.Bytes(), []string{"CONNECT"})
+		vf.Assert(len(got) == 1 && got[0].status == 502 && len(got[0].header["Warning"]) >= 1, "unreachable-target-yields-502-with-warning")
+		client.in.closeSend()
+		vf.Quiesce()
+		vf.Assert(returned && client.closed, "tunnel-handler-returns-when-both-ends-are-done")
+		vf.Assert(down.closed, "both-connections-released")
+		vf.Reach("downstream-garbage")
+		return
+	}
+	earlyT := vf.Bytes("early-target-data", vf.Choice("early-target-len", 2))
+	down.in.send(append([]byte(answer), earlyT...))
+	sentT = append(sentT, earlyT...)
+	vf.Quiesce()
+
+	resp := client.out.Bytes()
+	idx := bytes.Index(resp, []byte("\r\n\r\n"))
+	vf.Assert(idx > 0 && bytes.HasPrefix(resp, []byte("HTTP/1.1 200")), "connect-answered-200")
+	if idx <= 0 {
+		return
+	}
+	headLen := idx + 4
+	tunnelToClient := func() []byte { return client.out.Bytes()[headLen:] }
+	vf.Assert(bytes.Equal(toTarget(), sentC), "target-has-every-byte-the-client-sent-so-far")
+	vf.Assert(bytes.Equal(tunnelToClient(), sentT), "client-has-every-byte-the-target-sent-so-far")
+
+	a := vf.Bytes("client-bytes", vf.Choice("client-len", 3))
+	b := vf.Bytes("target-bytes", vf.Choice("target-len", 3))
+	if vf.Choice("client-first", 2) == 1 {
+		client.in.send(a)
+		down.in.send(b)
+	} else {
+		down.in.send(b)
+		client.in.send(a)
+	}
+	sentC, sentT = append(sentC, a...), append(sentT, b...)
+	vf.Quiesce()
+	vf.Assert(bytes.Equal(toTarget(), sentC), "target-has-every-byte-the-client-sent-so-far")
+	vf.Assert(bytes.Equal(tunnelToClient(), sentT), "client-has-every-byte-the-target-sent-so-far")
+
+	clientFirst := vf.Choice("client-closes-first", 2) == 1
+	if clientFirst {
+		client.in.closeSend()
+	} else {
+		down.in.closeSend()
+	}
+	vf.Quiesce()
+	if clientFirst {
+		vf.Assert(down.outEOF, "target-observes-end-of-stream-promptly")
+		down.in.closeSend()
+	} else {
+		vf.Assert(client.outEOF, "client-observes-end-of-stream-promptly")
+		client.in.closeSend()
+	}
+	vf.Quiesce()
+	vf.Assert(returned, "tunnel-handler-returns-when-both-ends-are-done")
+	vf.Assert(client.closed && down.closed, "both-connections-released")
 	vf.Reach("done")
 }
